@@ -623,6 +623,12 @@ func init() {
 	noop := func(e *Engine, fn *ssa.Function, a []Value, s ssa.Instruction) Value {
 		return Tuple{mkBV(64, 0), Iface{}}
 	}
+	reg("(*os.File).Write", func(e *Engine, fn *ssa.Function, a []Value, s ssa.Instruction) Value {
+		return Tuple{e.lenOf(a[1]), Iface{}}
+	})
+	reg("(*os.File).WriteString", func(e *Engine, fn *ssa.Function, a []Value, s ssa.Instruction) Value {
+		return Tuple{e.lenOf(a[1]), Iface{}}
+	})
 	reg("fmt.Fprintf", noop)
 	reg("fmt.Fprintln", noop)
 	reg("fmt.Fprint", noop)
